@@ -42,22 +42,44 @@ class AllocInit(Contract):
     props = ("C03", "C12", "C17")
 
     def pre_state(self, I):
-        m = I.sym_map("mapping", default=None, may_nan=True)
-        return {"self": I.new_rec("_Allocation"), "mapping": m, "keys": None, "values": None}
+        if I.choice(2) == 0:
+            m = I.sym_map("mapping", default=None, may_nan=True)
+            return {"self": I.new_rec("_Allocation"), "mapping": m, "keys": None, "values": None}
+        from .spaces import mk_contract_seq
+        from pyvc.models import act_array
+        ks = mk_contract_seq(I, "keys")
+        return {"self": I.new_rec("_Allocation"), "mapping": None, "keys": ks, "values": act_array(I, z3.Const("values", Act))}
 
     def requires(self, c):
-        if c.mapping is None:
-            return [Cl("mapping_given", FALSE)]
         h = c.I.snapshot()
-        m = as_map(h, c.mapping)
-        return [PW("static_keys", lambda k: z3.Implies(h[m.oid]["dom"](k), static_key(k)))]
+        if c.mapping is not None:
+            m = as_map(h, c.mapping)
+            return [PW("static_keys", lambda k: z3.Implies(h[m.oid]["dom"](k), static_key(k)))]
+        if c.keys is None or c.values is None:
+            return [Cl("keys_and_values_given", FALSE)]
+        ok = isinstance(c.keys, Obj) and "inv" in h[c.keys.oid] and isinstance(c.values, Obj) and "at" in h[c.values.oid]
+        return [Cl("contract_sequence_with_distinct_static_hashes", ok)]
+
+    def raises(self, c):
+        if c.mapping is not None or c.keys is None:
+            return {}
+        h = c.old
+        return {"ValueError": {"when": h[c.keys.oid]["len"] != h[c.values.oid]["len"]}}
 
     def filtered(self, c):
         h = c.old
-        m = as_map(h, c.mapping)
-        get, dom = h[m.oid]["get"], h[m.oid]["dom"]
-        ndom = lambda k: z3.And(dom(k), z3.Not(is_cash(k)), z3.Or(get(k).nan, get(k).v != 0))
-        return get, ndom
+        if c.mapping is not None:
+            m = as_map(h, c.mapping)
+            get, dom = h[m.oid]["get"], h[m.oid]["dom"]
+            ndom = lambda k: z3.And(dom(k), z3.Not(is_cash(k)), z3.Or(get(k).nan, get(k).v != 0))
+            return get, ndom
+        # keys/values: keyed by the static hash of each contract (pairwise distinct), cash and zeros dropped
+        pk, pv = h[c.keys.oid], h[c.values.oid]
+        n, at, inv, val = pk["len"], pk["at"], pk["inv"], pv["at"]
+        def ndom(k):
+            j = inv(k)
+            return z3.And(j >= 0, j < n, sh(at(j).t) == k, z3.Not(is_cash(at(j).t)), z3.Or(val(j).nan, val(j).v != 0))
+        return (lambda k: val(inv(k))), ndom
 
     def modifies(self, c):
         return [("obj", c.self)]
